@@ -8,6 +8,8 @@ from .. import bits, fields, paths
 from ..core import FUNC, call_attr, calls_in, const, dotted, is_const, kwarg, norm, slice_parts, text, walk_local
 
 EXPLANATION = [
+    'C19.pump-cancellation: the task function of MediaPacketPump.start has a handler for CancelledError (or BaseException): stop() cancels and awaits that task.',
+    'C19.state-after-success: no change_state() of avdtp.Stream sits in a finally or except block: the local state moves only after the peer accepted the procedure.',
     'C19.enum-field-defaults: every avdtp message field annotated with an enum type and given a default has an enum member as default (messages are formatted through `.name` before they are sent).',
     "C19.stream-table: Protocol.create_stream constructs a Stream only under the test that the source's seid is not in self.streams (never as an eagerly evaluated default).",
     'C19.free-label: Protocol.start_transaction stores a new future into transaction_results[label] only under the test that this slot is None.',
@@ -774,7 +776,47 @@ def enum_field_defaults(ctx):
     R.check(n >= 4, rule, 'bumble.avdtp | enum-typed fields with defaults', f'{n}', f'only {n} found')
 
 
+def state_after_success(ctx):
+    """An initiator-side stream procedure changes the local state after the peer accepted it, on the normal path only: no
+    change_state() in a `finally` block of avdtp.Stream (a refused Close must leave the stream as it was - the acceptor
+    did not change either)."""
+    R, p = ctx.r, ctx.p
+    rule = 'C19.state-after-success'
+    ci = p.cls('bumble.avdtp.Stream')
+    if ci is None:
+        R.bad(rule, 'bumble.avdtp.Stream', 'anchor missing')
+        return
+    n = 0
+    for name, fn in sorted(ci.methods.items()):
+        cs = [c for c in calls_in(fn) if dotted(c.func) == 'self.change_state']
+        n += len(cs)
+        for t in [x for x in walk_local(fn) if isinstance(x, ast.Try)]:
+            bad = [c for s_ in t.finalbody for c in calls_in(s_) if dotted(c.func) == 'self.change_state'] + [c for h in t.handlers for c in calls_in(h) if dotted(c.func) == 'self.change_state']
+            R.check(not bad, rule, f'bumble.avdtp.Stream.{name} | state change on the failure path', 'state changes on success only', f'{name} changes the stream state in a finally / except block (`{norm(bad[0])[:40] if bad else ""}`): when the peer refuses the procedure the initiator still moves (and releases the media channel) while the acceptor stays where it was', p.loc(bad[0]) if bad else p.loc(t))
+    R.check(n >= 8, rule, 'bumble.avdtp.Stream | change_state calls', f'{n}', f'only {n} found')
+
+
+def pump_cancellation(ctx):
+    """MediaPacketPump.stop() cancels the pump task and awaits it: the task function absorbs CancelledError (a
+    BaseException - `except Exception` does not catch it), or the cancellation comes back out of `await self.pump_task`
+    into whoever is suspending the stream."""
+    R, p = ctx.r, ctx.p
+    rule = 'C19.pump-cancellation'
+    start = p.find('bumble.avdtp.MediaPacketPump.start')
+    stop = p.find('bumble.avdtp.MediaPacketPump.stop')
+    if start is None or stop is None:
+        R.bad(rule, 'bumble.avdtp.MediaPacketPump.start / stop', 'anchor missing')
+        return
+    awaited = any(isinstance(a, ast.Await) and 'pump_task' in norm(a.value) for a in ast.walk(stop)) and any(call_attr(c) == 'cancel' and 'pump_task' in norm(c.func) for c in calls_in(stop))
+    inner = [x for x in ast.walk(start) if isinstance(x, FUNC) and x is not start]
+    names = {norm(e).split('.')[-1] for f in inner for t in ast.walk(f) if isinstance(t, ast.Try) for h in t.handlers for e in ((h.type.elts if isinstance(h.type, ast.Tuple) else [h.type]) if h.type is not None else [ast.Name(id='<bare>')])}
+    ok = bool(names & {'CancelledError', 'BaseException', '<bare>'})
+    R.check(awaited and ok, rule, 'bumble.avdtp.MediaPacketPump.start | pump task', 'absorbs CancelledError', f'the pump task catches {sorted(names)} only: stop() cancels it and awaits it, so the CancelledError is raised into Stream.stop() / the Suspend handler - the Suspend is never sent (or never answered) and the two ends keep different states', p.loc(start))
+
+
 RULES = [
+    ('C19.pump-cancellation', pump_cancellation),
+    ('C19.state-after-success', state_after_success),
     ('C19.enum-field-defaults', enum_field_defaults),
     ('C19.stream-table', stream_table),
     ('C19.free-label', free_label),
